@@ -13,6 +13,8 @@ import copy
 
 from lxml import etree
 
+import itertools
+
 from vflib import core, drive, gen, refxml, refval, clients
 from checks import c01
 
@@ -38,6 +40,7 @@ def shards(tier, seed):
     out = [{'shard': 'u%d' % i, 'tier': tier, 'seed': seed, 'first': i * per, 'count': per} for i in range(n)]
     # fixed three-level class tree: occurrence and facet boundaries of inherited members, every slot, every XML protocol
     out += [{'shard': 'inh/%s' % k, 'mode': 'inheritance', 'kind': k, 'tier': tier, 'seed': seed} for k in c01.PROTOCOLS]
+    out.append({'shard': 'named_chains', 'mode': 'named_chains', 'tier': tier, 'seed': seed})
     return out
 
 
@@ -354,7 +357,72 @@ def run_inheritance(R, spec):
     R.count('inheritance_universe_runs')
 
 
+def named_chains(R, spec):
+    """Simple types derived in several steps, some of them given a name (type_name=) and some not: the schema must compile, and every step's
+    constraint must be in it - a value that breaks the constraint of any ancestor is refused by the schema exactly as by the soft validator."""
+    import decimal as _d
+    from lxml import etree
+    from spyne import Application, Service, rpc, Unicode, Integer, Decimal, ComplexModel, Array
+    from spyne.server import ServerBase
+    ns = 'urn:vf:c06:chains'
+    # (base type, [(kwargs of one step, a literal this step refuses)], a literal every step accepts)
+    families = [
+        (Unicode, [(dict(pattern='[a-z]+'), 'ABC'), (dict(max_len=5), 'abcdefgh'), (dict(min_len=2), 'a')], 'abc'),
+        (Integer, [(dict(ge=0), '-1'), (dict(le=100), '101'), (dict(gt=1), '1')], '50'),
+        (Decimal, [(dict(ge=_d.Decimal('0.5')), '0.25'), (dict(le=_d.Decimal('9.5')), '10'), (dict(gt=_d.Decimal('1')), '1')], '2.5'),
+        (Unicode, [(dict(values=['aa', 'bb', 'cccccc']), 'zz'), (dict(max_len=4), 'cccccc')], 'aa'),
+    ]
+    n = 0
+    for base, steps, good in families:
+        for k in range(1, len(steps) + 1):
+            for named in itertools.product((False, True), repeat=k):
+                n += 1
+                R.evaluations += 1
+                t = base
+                for i, ((kw, _), nm) in enumerate(zip(steps[:k], named)):
+                    t = t.customize(**(dict(kw, type_name='N%d_%d' % (n, i)) if nm else kw)) if t is not base else base(**(dict(kw, type_name='N%d_%d' % (n, i)) if nm else kw))
+                case = {'scenario': 'named_chains', 'seed': spec['seed'], 'base': base.__name__, 'steps': [sorted(kw) for kw, _ in steps[:k]], 'named': list(named)}
+                H = type('H%d' % n, (ComplexModel,), {'__namespace__': ns, 'v': t, 'vs': Array(t)})
+                S = type('ChainSvc%d' % n, (Service,), {'f': rpc(t, H, _returns=t)(lambda ctx, a, h: a)})
+                verdicts = {}
+                for validator in ('soft', 'lxml'):
+                    try:
+                        inp, outp = c01.make_protocols('xml', validator)
+                        srv = ServerBase(Application([S], ns, name='Chain%d' % n, in_protocol=inp, out_protocol=outp))
+                    except Exception as e:
+                        R.violation('application with a %d-step chain (named: %s) of %s cannot be built with validator=%s: %s: %s' % (k, list(named), base.__name__, validator,
+                                    type(e).__name__, str(e)[:160]), case, mech='named_chain:schema_does_not_compile' if 'XMLSchema' in type(e).__name__ else
+                                    'named_chain:construction:%s' % type(e).__name__)
+                        verdicts = None
+                        break
+                    for label, lit in [('good', good)] + [('breaks_step_%d' % i, bad) for i, (_, bad) in enumerate(steps[:k])]:
+                        for slot in ('arg', 'member'):
+                            inner = {'arg': '<t:a>%s</t:a><t:h><t:v>%s</t:v></t:h>' % (lit, good), 'member': '<t:a>%s</t:a><t:h><t:v>%s</t:v></t:h>' % (good, lit),
+                                     'item': '<t:a>%s</t:a><t:h><t:v>%s</t:v><t:vs><t:X>%s</t:X></t:vs></t:h>' % (good, good, lit)}[slot]
+                            if slot == 'item':
+                                # the item element is named after the type: ask the application
+                                item_name = list(H._type_info['vs']._type_info.keys())[0]
+                                inner = inner.replace('t:X', 't:' + item_name)
+                            r = drive.drive_server(srv, ('<t:f xmlns:t="%s">%s</t:f>' % (ns, inner)).encode())
+                            verdicts[(validator, label, slot)] = 'escape' if r.exc is not None else 'refused' if r.error is not None else 'accepted'
+                if verdicts is None:
+                    continue
+                R.count('named_chains_built')
+                for (validator, label, slot), v in sorted(verdicts.items()):
+                    want = 'accepted' if label == 'good' else 'refused'
+                    R.count('named_chain_verdicts')
+                    if v != want:
+                        R.violation('%d-step chain of %s (named: %s), %s validator, %s at %s: %s, expected %s' % (k, base.__name__, list(named), validator, label, slot, v, want),
+                                    dict(case, validator=validator, label=label, slot=slot), mech='named_chain:%s:%s_%s' % (validator, label.split('_')[0], v))
+                R.nontrivial('named_chains', base.__name__, k, named)
+
+
 def run(spec, R):
+    if spec.get('mode') == 'named_chains':
+        named_chains(R, spec)
+        for k in REQUIRED_COUNTERS:
+            R.count(k, 0)
+        return
     if spec.get('mode') == 'inheritance':
         run_inheritance(R, spec)
         for k in REQUIRED_COUNTERS:
@@ -366,6 +434,11 @@ def run(spec, R):
 
 def replay(v, R):
     c = v['repro']
+    if c.get('scenario') == 'named_chains':
+        named_chains(R, {'seed': c['seed']})
+        for x in R.violations[:10]:
+            print('replayed:', x.get('mech'), x.get('what')[:300])
+        return
     if c.get('uid') == 9100:
         run_inheritance(R, {'seed': c['seed'], 'kind': c['kind'], 'shard': 'inh/%s' % c['kind'], 'tier': 'thorough'})
     else:
